@@ -17,7 +17,7 @@ COMPONENTS = dict(
     real=['btpu.agent.Agent (both ends)', 'btpu.messages', 'scapy (Ether, fields)', 'repo code at /repo/src working tree'],
     simulated=['GLib main contexts + clocks', 'AF_PACKET sockets on a shared Ethernet segment with drop / duplicate / reorder / delay (dsim.net)', 'D-Bus (dsim.dbusmod)'],
     stub=['psutil (interfaces of the simulated host)', 'macaddress (EUI48 value type)', 'portion (integer interval shim)', 'yaml (import only)'])
-PROBES = ('xfer.segmented', 'xfer.unsegmented', 'dg.dup', 'dg.delay', 'dg.drop', 'foreign.multi_message', 'foreign.hints', 'foreign.padding', 'foreign.two_transfers_in_one_frame', 'bundles.delivered',
+PROBES = ('xfer.segmented', 'xfer.unsegmented', 'dg.dup', 'dg.delay', 'dg.drop', 'foreign.multi_message', 'foreign.hints', 'foreign.padding', 'foreign.two_transfers_in_one_frame', 'foreign.one_segment_transfer', 'bundles.delivered',
           'timing.spread_over_timeout', 'frames.roundtrip_checked')
 ASSUMPTIONS = ['delivery is required only when every inter-segment gap is below the receive timeout the code documents ("reset each time a new segment is received")',
                'the decode / re-encode clause has no schedule dimension; it is checked on every frame that crosses the simulated wire']
@@ -55,7 +55,7 @@ def gen(ch, tier):
     foreign = []
     for ix in range(ch.weighted('nforeign', (2, 2, 1))):
         foreign.append(dict(parts=[ch.choice('part', ('bundle', 'seg', 'seg', 'padmsg')) for _ in range(1 + ch.pick('nparts', 3))], tag=200 + ix,
-                            blen=10 + ch.pick('fblen', 100), extra_hint=ch.choice('xh', (0, 1, 2, 3, 4)), pair=ch.coin('pair', 1, 3), pad=ch.coin('pad', 1, 2), t=1000 * ch.pick('ft', 2000)))
+                            blen=10 + ch.pick('fblen', 100), extra_hint=ch.choice('xh', (0, 1, 2, 3, 4)), pair=ch.coin('pair', 1, 3), single=ch.coin('single', 1, 3), pad=ch.coin('pad', 1, 2), t=1000 * ch.pick('ft', 2000)))
     return dict(scenario='btpu_pair', kind='btpu', profile=profile, net=net, mtu=mtu, sends=sends, foreign=foreign,
                 cfg={'*': dict(mtu_default=mtu, node_id='dtn://b/')})
 
@@ -86,6 +86,7 @@ def _drive(run, plan, har):
     sent = {'U1': [], 'U2': []}
     foreign_whole = []
     foreign_seg = []
+    foreign_single = []
 
     def do_send(item):
         dst = 'U2' if item['src'] == 'U1' else 'U1'
@@ -131,6 +132,13 @@ def _drive(run, plan, har):
                 har.peer_send(refbtpu.frame(dgram_pair.MACS['U2'], dgram_pair.MACS['X'], part), 'U2')
             foreign_seg.extend([body_a, body_b])
             stats['foreign.two_transfers_in_one_frame'] = 1
+        if item.get('single'):
+            # a transfer that consists of one segment only: the end segment carries index 0
+            body_c = bc.body(item['tag'] + 90, item['blen'] + 1, first=0x9F)
+            har.peer_send(refbtpu.frame(dgram_pair.MACS['U2'], dgram_pair.MACS['X'], refbtpu.encode_segment(600 + item['tag'], 0, body_c, True, len(body_c))), 'U2')
+            foreign_seg.append(body_c)
+            foreign_single.append(body_c)
+            stats['foreign.one_segment_transfer'] = 1
         if not payload:
             return
         if nmsg > 1:
@@ -263,6 +271,12 @@ def _drive(run, plan, har):
                                       '%s never queued the %d-octet bundle %s although each segment arrived once with gaps below the receive timeout (spread %.3f s)' % (
                                           side, len(body), tid, spread / 1e6)))
                     return
+        # a transfer of one segment has no gaps to time out on: its only segment arrived once, so the bundle is queued once
+        for body in foreign_single:
+            if got['U2'].count(body) != 1:
+                run.viols.append(('receive', 'one-segment-transfer-queued-%d-times' % got['U2'].count(body),
+                                  'U2 queued the %d-octet bundle of a transfer whose only segment (end flag, index 0) arrived once %d times' % (len(body), got['U2'].count(body))))
+                return
     stats['bundles.delivered'] = sum(len(val) for val in got.values())
     if any(evt[3] == 'escaped-exception' for evt in wld.hist):
         stats['probe.escaped_exception'] = 1
